@@ -367,7 +367,8 @@ def jSRule (j : Json) : E (Option S.SRule) := do
                  actions := r.actions.getD [] })
 
 def specOutJson (o : S.Outcome) : Json :=
-  Json.mkObj [("sr", srJson o.result), ("failing", Json.arr ((sortStrs o.failing).map sJ).toArray)]
+  Json.mkObj [("sr", srJson o.result), ("failing", Json.arr ((sortStrs o.failing).map sJ).toArray),
+    ("named", Json.arr ((sortStrs o.named).map sJ).toArray)]
 
 /-- structured validity: what must be rejected at load / compile time -/
 def specLoad (x : Ext) (rules : List (S.SRule × Bool)) : Option Json :=
@@ -562,6 +563,32 @@ def handle (j : Json) : E Json := do
     let dup := (tpls.map Prod.fst).eraseDups.length != tpls.length
     let out : Json := if dup then "tplerr" else ruleOutJson (M.applyTemplates tpls r)
     pure (Json.mkObj [("model", Json.mkObj [("outs", Json.arr #[out])])])
+  | "tpl_api" =>
+    -- calls on one `Templates` value: ["insert", name, text] | ["extend", [[name, text], ...]]; then the rule is templated
+    let calls := (← (← j.getObjVal? "calls").getArr?).toList
+    let r ← jRule (← j.getObjVal? "rule")
+    let pairs (a : Json) : E Tpls := do
+      (← a.getArr?).toList.mapM (fun e => do
+        let k ← (← e.getArrVal? 0).getStr?
+        let v ← (← e.getArrVal? 1).getStr?
+        pure (k.toList, v.toList))
+    let rec goApi : List Json → Tpls → List Json → E (Tpls × List Json)
+      | [], t, acc => pure (t, acc.reverse)
+      | c :: cs, t, acc => do
+        let kind ← (← c.getArrVal? 0).getStr?
+        if kind == "insert" then
+          let n ← (← c.getArrVal? 1).getStr?
+          let v ← (← c.getArrVal? 2).getStr?
+          match M.tplInsert t n.toList v.toList with
+          | some t' => goApi cs t' (Json.str "ok" :: acc)
+          | none => goApi cs t (Json.str "dup" :: acc)
+        else
+          let d ← pairs (← c.getArrVal? 1)
+          match M.tplExtend t d with
+          | some t' => goApi cs t' (Json.str "ok" :: acc)
+          | none => goApi cs t (Json.str "dup" :: acc)
+    let (t, res) ← goApi calls [] []
+    pure (Json.mkObj [("model", Json.mkObj [("calls", Json.arr res.toArray), ("len", Json.num t.length), ("rule", ruleOutJson (M.applyTemplates t r))])])
   | "tpl_load" =>
     let calls ← (← (← j.getObjVal? "calls").getArr?).toList.mapM (fun c => do
       (← c.getArr?).toList.mapM (fun d => do
